@@ -23,6 +23,7 @@ RULE = (
     "thorough tier); on Redis additionally an -ERR reply to SET or a connection reset at a seeded step inside the call; slow "
     "I/O: the n-th result store of the worker stalls for 20 ms - 5 s (retry back-off 50 ms or 0, period 1 s; every 10th scenario "
     "sweeps n over all stores), no relaxation of the oracle. "
+    "In 40% of the runs the producer polls Job.result of every job every 0.2 s while the chains run. "
     "Oracle: Job.result == outcome of the latest finished execution (success flag, encoded value or exception text and type "
     "name, started <= finished, ttl); nothing written when disabled; under a store fault every message's final place equals "
     "the fault-free twin's, no second terminal action follows the failed store, the worker finishes its other jobs. non-trivial = a "
@@ -71,6 +72,7 @@ def gen(rng, broker, tier):
                  rng.choice(["raise", "raise", "slow"]),
                  "nth": rng.randint(1, 6), "offset": rng.randint(0, 12), "delay_us": rng.choice([20_000, 200_000, 2_000_000])}
     return {"jobs": jobs, "tasks_limit": rng.randint(1, 3), "fault": fault, "policy_us": rng.choice([50_000, 50_000, 0]),
+            "poll": rng.random() < 0.4,
             "knobs": {"step_cost": rng.choice([0, 0, 1, "rand"]),
                       "net": {"lat_lo": 50, "lat_hi": rng.choice([300, 3000]), "frag_p": rng.choice([0, 0.2])}}}
 
@@ -166,6 +168,20 @@ async def _main(sim, sc, out):
     await sim.loop.spawn("p", workload.producer(world, connp, sc["jobs"], enq))
     wt = sim.loop.spawn("w", w.run())
     deadline = sim.clock.us + 9_000_000
+    polling = {"on": bool(sc.get("poll"))}
+
+    async def poller():
+        # the producer looks at its jobs' results while the chains are still running (every attempt overwrites)
+        while polling["on"]:
+            for jid_ in list(enq):
+                try:
+                    await enq[jid_]["job"].result
+                except Exception:  # noqa: BLE001
+                    pass
+            sim.count("result-polled")
+            await asyncio.sleep(0.2)
+
+    pt = sim.loop.spawn("p", poller()) if polling["on"] else None
 
     def chains_done():
         insp = world.inspect()
@@ -196,6 +212,9 @@ async def _main(sim, sc, out):
         V.append(violation("worker-died", f"C13/{b}/worker-raised/{type(exc).__name__}", exc=repr(exc)[:200],
                            fault=fault and fault["kind"]))
         return
+    polling["on"] = False
+    if pt is not None:
+        await pt
     await asyncio.sleep(0.5)
     if fault and fault["kind"] == "raise":
         fired["n"] = sim.fired.get("fault:store_bucket-raises", 0)
